@@ -104,6 +104,8 @@ Step == /\ pc = "run"
                 IN dest' = t[1] /\ dsize' = t[2] /\ copied' = t[3] /\ piece' = piece + 1 /\ pc' = pc
         /\ UNCHANGED <<sizes, cands>>
 Spec == Init /\ [][Step]_vars
+FairSpec == Spec /\ WF_vars(Step)
+Terminates == <>(pc = "done")
 
 \* the closure agrees with the step-by-step run (binds MatchAll to Step)
 ClosureAgrees == pc = "done" => dest = MatchAll(sizes, cands)
